@@ -149,7 +149,7 @@ def fieldTy (fj : Json) : Ty :=
   | none => t
 
 /-- one declaration.  A subclass (`"base": j`) takes the base's fields over as they are — the same ParserField
-objects, hence the same default objects (cls.py:225-262) — and adds its own. -/
+objects, hence the same default objects (cls.py:223-257) — and adds its own. -/
 def buildDecl (env : Env) (dj : Json) (b0 : B) : Decl × List Val × B :=
     let (fields, b) := (arr! (fld dj "fields")).foldl (fun (fa : List Field × B) fj =>
       let dj' := fld fj "default"
